@@ -35,7 +35,10 @@ def run_variant(args):
         if entry['old'] not in s:
             out['applicable'] = False
             return out
-        if entry.get('fn') is not None:
+        if isinstance(entry.get('fn'), tuple):
+            import nvstat.catalogue as cat
+            s2 = getattr(cat, entry['fn'][0])(s, *entry['fn'][1:])
+        elif entry.get('fn') is not None:
             s2 = entry['fn'](s)
         elif entry['id'] in REPLACE_ALL:
             s2 = s.replace(entry['old'], entry['new'])
